@@ -151,6 +151,7 @@ const SYM_WIN: &str = "MODULE windows x86 000000000000000000000000000000000 m\nF
 const SYM_MEMFREE: &str = "MODULE Linux x86_64 000000000000000000000000000000000 m\nSTACK CFI INIT 0 ffffffff .cfa: $rsp 1 + .ra: 4096\nSTACK CFI INIT 0 ffffffff .cfa: $esp 1 + .ra: 4096\nSTACK CFI INIT 0 ffffffff .cfa: sp 1 + .ra: 4096\n";
 const SYM_OVERLAP: &str = "MODULE Linux x86_64 000000000000000000000000000000000 m\nFUNC 1000 11 0 first\nFUNC 1010 10 0 second\nFUNC 1010 10 0 second\nFUNC 1800 100 0 outer\nFUNC 1810 10 0 inner\nFUNC 2000 10 0 a\n2000 9 1 0\n2008 8 2 0\nFUNC 2010 10 0 b\nPUBLIC 1000 0 p\nSTACK CFI INIT 1000 11 .cfa: $rsp 8 + .ra: .cfa -8 + ^\nSTACK CFI INIT 1010 10 .cfa: $rsp 16 + .ra: .cfa -8 + ^\nSTACK WIN 4 1000 11 0 0 0 0 0 0 1 $eip .raSearch ^ = $esp .raSearch 4 + =\nSTACK WIN 4 1010 10 0 0 0 0 0 0 1 $eip .raSearch ^ = $esp .raSearch 4 + =\nSTACK WIN 0 1000 11 0 0 0 0 0 0 0 0\nSTACK WIN 0 1010 10 0 0 0 0 0 0 0 0\n";
 const SYM_PINGPONG: &str = "MODULE Linux x86_64 000000000000000000000000000000000 m\nSTACK CFI INIT 0 2000 .cfa: $rsp .ra: 12288\nSTACK CFI INIT 2000 fffffff .cfa: $rsp .ra: 4096\nSTACK CFI INIT 0 2000 .cfa: $esp .ra: 12288\nSTACK CFI INIT 2000 fffffff .cfa: $esp .ra: 4096\nSTACK CFI INIT 0 2000 .cfa: sp .ra: 12288\nSTACK CFI INIT 2000 fffffff .cfa: sp .ra: 4096\n";
+const SYM_ARGS: &str = "MODULE windows x86 000000000000000000000000000000000 m\nFUNC 0 800 c zeichne(\u{e9},int h)\nFUNC 800 800 10 f(std::map<a,b>,\u{1F600} x,(*)(int,\u{fc}),\u{e9})\nFUNC 1000 ff000 8 g(\u{e9}\u{e9}\u{e9}\u{e9},\u{20ac})\nSTACK WIN 4 0 100000 1 0 c 4 10 0 1 $T0 $ebp = $eip $T0 4 + ^ = $ebp $T0 ^ = $esp $T0 8 + =\n";
 fn sym_menu() -> Vec<(&'static str, Option<Vec<u8>>)> {
     vec![
         ("absent", None),
@@ -161,6 +162,9 @@ fn sym_menu() -> Vec<(&'static str, Option<Vec<u8>>)> {
         ("corrupt", Some(SYM_CFI.replace("FUNC 0", "FUNC zz").into_bytes())),
         // records that overlap by exactly one byte, touch, nest and repeat (the parser's repair rules)
         ("overlapping-records", Some(SYM_OVERLAP.as_bytes().to_vec())),
+        // function names with argument lists containing multi-byte characters, templates and nested parentheses
+        // (x86 argument recovery under unstable_all slices the name at comma positions)
+        ("x86-argument-lists", Some(SYM_ARGS.as_bytes().to_vec())),
         // two CFI ranges that send control to each other without moving the stack pointer
         ("ping-pong-cfi", Some(SYM_PINGPONG.as_bytes().to_vec())),
         ("non-utf8", Some([SYM_CFI.as_bytes(), b"PUBLIC 10 0 \xff\xfe\n"].concat())),
@@ -498,7 +502,7 @@ fn main() {
         let mut def = CheckDef::new(
             "C03",
             "fault_enumeration",
-            "every case = (dump bytes, symbol bytes served to every module, option set rotating over stable_basic / stable_all / unstable_all) through the real process_minidump_with_options and all four renderers in sandboxed workers (panic guard, 8 s wall confirmed by a solo re-run, 768 MiB heap cap), then frame budget (frames <= stack bytes + 2 per thread) and strict JSON validity. Spaces: one-deviation mutations (every 4-aligned offset x width {4,8} x boundary/directory-value menu) of the 54 synthetic seed dumps x 9 symbol menus (quick: shard VERIF_SEED mod 8 of the mutations, completely; thorough: all); all sequences of <= 3 /proc limits lines over 10 line shapes x LF/CRLF; amd64 crash contexts whose instruction bytes run over ALL 2-byte [thorough 3-byte] prefixes x rsp menu; x86 STACK WIN records with every size field in {0,1,4,2^31,2^32-1} x 3 record kinds x 4 esp values; CFI menus (CFA below/equal/above sp, memory-free rules) x 9 CPUs x 5 platforms x stack sizes x 3 placements incl. top of address space; memory-map regions ending at the extremes next to the crash address. distinct_nontrivial = distinct (thread count, per-thread frame count + trust sequence, crash reason, option set).",
+            "every case = (dump bytes, symbol bytes served to every module, option set rotating over stable_basic / stable_all / unstable_all) through the real process_minidump_with_options and all four renderers in sandboxed workers (panic guard, 8 s wall confirmed by a solo re-run, 768 MiB heap cap), then frame budget (frames <= stack bytes + 2 per thread) and strict JSON validity. Spaces: one-deviation mutations (every 4-aligned offset x width {4,8} x boundary/directory-value menu) of the 54 synthetic seed dumps x 10 symbol menus (quick: shard VERIF_SEED mod 8 of the mutations, completely; thorough: all); all sequences of <= 3 /proc limits lines over 10 line shapes x LF/CRLF; amd64 crash contexts whose instruction bytes run over ALL 2-byte [thorough 3-byte] prefixes x rsp menu; x86 STACK WIN records with every size field in {0,1,4,2^31,2^32-1} x 3 record kinds x 4 esp values; CFI menus (CFA below/equal/above sp, memory-free rules) x 9 CPUs x 5 platforms x stack sizes x 3 placements incl. top of address space; memory-map regions ending at the extremes next to the crash address. distinct_nontrivial = distinct (thread count, per-thread frame count + trust sequence, crash reason, option set).",
         );
         def.assumptions = vec![
             "small scope: mutated dumps are one deviation away from a seed; symbol bytes come from a 7-entry menu served to every module".into(),
